@@ -10,14 +10,22 @@ package vm
 //@ import authkeeper "github.com/cosmos/cosmos-sdk/x/auth/keeper"
 //@ import bankkeeper "github.com/cosmos/cosmos-sdk/x/bank/keeper"
 
-// abstract version of the persistent (non-transient) chain state
+// Link between the StateDB object's abstract view (sdbBal, sdbSupply, sdbNonce ... of prelude/31_geth_vm.spec) and the chain
+// state behind the context it was created on. TRUSTED SUMMARIES of NewStateDB / CommitMultiStore here; the StateDB's own
+// behaviour is the subject of C03 / C15 / C04 contracts on x/evm/vm.
+//   wVersion[layer]       abstract version of everything else that is persistent in a layer (code, storage, staking, ...)
+//   sdbCtxLayer[db]       the store layer of the context the StateDB was created on
+//   sdbSupplyX[db][denom] supply of the non-EVM denominations as seen through the StateDB
 //@ ghost var wVersion map[int]int
+//@ ghost var sdbCtxLayer map[ref]int
 
 //@ func NewStateDB(ctx sdk.Context, coinbase common.Address, ethKeeper EvmKeeper, accountKeeper authkeeper.AccountKeeper, bankKeeper bankkeeper.Keeper) CStateDB
 //@   assumed
 //@   modifies nothing
-//@   ensures result != nil && fresh(payload(result))
-//@   ensures forall a common.Address :: sdbBal[payload(result)][a] >= 0
+//@   ensures result != nil && fresh(payload(result)) && sdbCtxLayer[payload(result)] == layer(ctx)
+//@   ensures forall a common.Address :: sdbBal[payload(result)][a] >= 0 && sdbBal[payload(result)][a] == bankBal[layer(ctx)][addrBytes(a)][evmDenomOf[layer(ctx)]] && sdbNonce[payload(result)][a] == acctSeq[layer(ctx)][addrBytes(a)]
+//@   ensures sdbSupply[payload(result)] == bankSupply[layer(ctx)][evmDenomOf[layer(ctx)]]
+//@   ensures forall d string :: d != evmDenomOf[layer(ctx)] ==> sdbSupplyX[payload(result)][d] == bankSupply[layer(ctx)][d]
 //@   panics never
 
 //@ func (d CStateDB) GetTransactionLogs() []*ethtypes.Log
@@ -25,7 +33,14 @@ package vm
 //@   modifies nothing
 //@   panics never
 
-//@ func (d CStateDB) CommitMultiStore(deleteEmptyObjects bool) error
+// CommitMultiStore flushes the StateDB's view into the layer it was created on, after deleting self-destructed and (EIP-158)
+// empty touched accounts, whose balances are burnt: supplies can only shrink; an account that has a non-zero nonce and no
+// code is neither empty nor able to self-destruct, so its sequence and EVM-denomination balance are flushed as they are.
+//@ func (d CStateDB) CommitMultiStore(deleteEmptyObjects bool) (err error)
 //@   assumed
-//@   modifies wVersion, sdbOther[payload(d)]
+//@   modifies wVersion[sdbCtxLayer[payload(d)]], bankBal[sdbCtxLayer[payload(d)]], bankSupply[sdbCtxLayer[payload(d)]], acctSeq[sdbCtxLayer[payload(d)]], acctExists[sdbCtxLayer[payload(d)]], authVersion[sdbCtxLayer[payload(d)]], sdbOther[payload(d)]
+//@   ensures err == nil ==> bankSupply[sdbCtxLayer[payload(d)]][evmDenomOf[sdbCtxLayer[payload(d)]]] <= sdbSupply[payload(d)]
+//@   ensures err == nil ==> (forall den string :: den != evmDenomOf[sdbCtxLayer[payload(d)]] ==> bankSupply[sdbCtxLayer[payload(d)]][den] <= sdbSupplyX[payload(d)][den])
+//@   ensures err == nil ==> (forall a common.Address :: (sdbNonce[payload(d)][a] > 0 && isEmptyCodeHash(sdbCodeHash[payload(d)][a])) ==> (acctSeq[sdbCtxLayer[payload(d)]][addrBytes(a)] == sdbNonce[payload(d)][a] && bankBal[sdbCtxLayer[payload(d)]][addrBytes(a)][evmDenomOf[sdbCtxLayer[payload(d)]]] == sdbBal[payload(d)][a]))
+//@   ensures err != nil ==> (bankBal[sdbCtxLayer[payload(d)]] == old(bankBal[sdbCtxLayer[payload(d)]]) && bankSupply[sdbCtxLayer[payload(d)]] == old(bankSupply[sdbCtxLayer[payload(d)]]) && acctSeq[sdbCtxLayer[payload(d)]] == old(acctSeq[sdbCtxLayer[payload(d)]]))
 //@   panics any
